@@ -326,24 +326,31 @@ Proof.
     apply in_map_iff in H as [k [E _]]; discriminate.
 Qed.
 
-(* Since a131b2a the ONLY reference that still reaches SQL through lower_expr's unresolved-ident fallback is the bare
-   name `that` outside a join condition (the empty shadow module; finding C10-F2) *)
-Theorem passthrough_only_bare_that sc id :
-  lower_ref sc id = OPassthrough -> fst id = [] /\ leqb (snd id) s_that_name = true /\ s_that sc = None.
+(* Since a131b2a the ONLY reference that can still reach SQL through lower_expr's unresolved-ident fallback is the bare
+   name `that` outside a join condition (the empty shadow module; finding C10-F2) -- and only while lower_expr does not
+   test for it (cfg_that_rejected = false) *)
+Theorem passthrough_only_bare_that c sc id :
+  lower_ref c sc id = OPassthrough ->
+  fst id = [] /\ leqb (snd id) s_that_name = true /\ s_that sc = None /\ cfg_that_rejected c = false.
 Proof.
-  unfold lower_ref, lower_ref_in. destruct (resolve sc id) as [c|i|e] eqn:R; [| |discriminate].
+  unfold lower_ref, lower_ref_in. destruct (resolve sc id) as [x|i|e] eqn:R; [| |discriminate].
   - unfold resolve in R. destruct (resolve_ok_unique (lookup sc id) (infer_candidates sc id)) as [U _].
-    specialize (U c R). assert (In c (lookup sc id)) as Hin by (rewrite U; left; reflexivity).
-    destruct c as [k|k|k| | | |t]; try discriminate; try (destruct k; discriminate).
+    specialize (U x R). assert (In x (lookup sc id)) as Hin by (rewrite U; left; reflexivity).
+    destruct x as [k|k|k| | | |t]; try discriminate; try (destruct k; discriminate).
     destruct t; [|discriminate].
-    apply lookup_cframe in Hin as [Hq Hn]. destruct (s_that sc); [discriminate|]. auto.
+    apply lookup_cframe in Hin as [Hq Hn]. unfold lower_that.
+    destruct (s_that sc); [discriminate|]. destruct (cfg_that_rejected c); [discriminate|]. auto.
   - destruct i; discriminate.
 Qed.
 
-Theorem no_silent_passthrough_partial sc n :
-  leqb n s_that_name = false \/ s_that sc <> None -> lower_ref sc ([], n) <> OPassthrough.
+(* with the C10-F2 repair in the source: NO identifier, qualified or not, in any scope, reaches SQL unresolved *)
+Theorem no_silent_passthrough_fixed c : cfg_that_rejected c = true -> forall sc id, lower_ref c sc id <> OPassthrough.
+Proof. intros H sc id E. apply passthrough_only_bare_that in E as [_ [_ [_ E]]]. congruence. Qed.
+
+Theorem no_silent_passthrough_partial c sc n :
+  leqb n s_that_name = false \/ s_that sc <> None -> lower_ref c sc ([], n) <> OPassthrough.
 Proof.
-  intros H E. apply passthrough_only_bare_that in E as [_ [E1 E2]]. cbn [snd] in E1.
+  intros H E. apply passthrough_only_bare_that in E as [_ [E1 [E2 _]]]. cbn [snd] in E1.
   destruct H as [H|H]; congruence.
 Qed.
 
@@ -360,11 +367,11 @@ Proof.
   - exists (CStd k), k. split; [|auto]. do 6 (apply in_or_app; right). apply in_map. exact Hin.
 Qed.
 
-Theorem module_or_relation_name_is_not_a_value sc n :
+Theorem module_or_relation_name_is_not_a_value c sc n :
   names_module_or_table sc n = true ->
-  lower_ref sc ([], n) = OErr ENotAValue \/ lower_ref sc ([], n) = OErr EAmbiguous.
+  lower_ref c sc ([], n) = OErr ENotAValue \/ lower_ref c sc ([], n) = OErr EAmbiguous.
 Proof.
-  intro H. destruct (lookup_has_modtab sc n H) as [c [k [Hin [Hc Hk]]]].
+  intro H. destruct (lookup_has_modtab sc n H) as [x [k [Hin [Hc Hk]]]].
   unfold lower_ref, lower_ref_in, resolve.
   destruct (lookup sc ([], n)) as [|c1 [|c2 l]]; [destruct Hin| |right; reflexivity].
   destruct Hin as [<-|[]]. left. cbn [resolve_from].
@@ -413,19 +420,19 @@ Proof.
   apply in_app_or in H as [H|H]; apply in_map_iff in H as [k [<- _]]; discriminate.
 Qed.
 
-Theorem closed_frame_outcome sc n :
+Theorem closed_frame_outcome c sc n :
   scope_closed sc = true -> in_frames sc n = false ->
-  match lower_ref sc ([], n) with
+  match lower_ref c sc ([], n) with
   | OColumn _ _ _ | OInferredColumn _ _ => False
   | _ => True
   end.
 Proof.
   intros Hc Hf. unfold lower_ref, lower_ref_in.
-  destruct (resolve sc ([], n)) as [c|i|e] eqn:R; [| |exact I].
+  destruct (resolve sc ([], n)) as [x|i|e] eqn:R; [| |exact I].
   - unfold resolve in R. destruct (resolve_ok_unique (lookup sc ([], n)) (infer_candidates sc ([], n))) as [U _].
-    specialize (U c R). assert (In c (lookup sc ([], n))) as Hin by (rewrite U; left; reflexivity).
-    destruct c as [k|k|k|t p|t i p|t i|t]; try (destruct k; exact I); try exact I;
-      try (destruct t; [destruct (s_that sc)|]; exact I);
+    specialize (U x R). assert (In x (lookup sc ([], n))) as Hin by (rewrite U; left; reflexivity).
+    destruct x as [k|k|k|t p|t i p|t i|t]; try (destruct k; exact I); try exact I;
+      try (destruct t; [unfold lower_that; destruct (s_that sc); [|destruct (cfg_that_rejected c)]|]; exact I);
       (pose proof (lookup_bare_col sc n _ Hin eq_refl); congruence).
   - (* inferred: impossible in a closed scope *)
     destruct i as [t i|]; [|exact I]. exfalso.
@@ -438,17 +445,31 @@ Qed.
 
 (* ------------------------------------------------------------------ declarations inside modules (d92afac) *)
 
-(* the declaration's own module is the first place a table reference is looked up *)
-Lemma rel_enclosing_sibling mods sc m cur q n c :
-  mlookup mods sc ((m :: cur) ++ q, n) = [c] -> rel_enclosing mods sc (m :: cur) (q, n) = Some c.
-Proof. intro H. cbn [rel_enclosing fst snd]. rewrite H. reflexivity. Qed.
+Lemma tails_ne_head m l : tails_ne (m :: l) = (m :: l) :: tails_ne l.
+Proof. reflexivity. Qed.
+
+(* both walks start at the declaration's own module *)
+Lemma walk_head c m cur : exists rest, walk c (m :: cur) = (m :: cur) :: rest.
+Proof.
+  unfold walk. destruct (cfg_parent_walk c); [|eexists; reflexivity].
+  unfold inits_ne. destruct (rev (m :: cur)) as [|y l] eqn:E.
+  - apply (f_equal (@length str)) in E. rewrite rev_length in E. discriminate.
+  - cbn [tails_ne map]. rewrite <- E, rev_involutive. eexists; reflexivity.
+Qed.
+
+Lemma rel_enclosing_sibling c mods sc m cur q n x :
+  mlookup mods sc ((m :: cur) ++ q, n) = [x] -> rel_enclosing c mods sc (m :: cur) (q, n) = Some x.
+Proof.
+  intro H. unfold rel_enclosing. destruct (walk_head c m cur) as [rest ->].
+  cbn [first_unique fst snd]. rewrite H. reflexivity.
+Qed.
 
 (* whatever the enclosing-modules step finds that is not a relation variable -- a sibling constant, function or
    module -- makes the call an error; before d92afac the same reference was a database table *)
-Theorem enclosing_nonrelation_where_relation_rejected ms id c f args named i k :
-  rel_enclosing (ms_mods ms) (shadowed (ms_scope ms)) (ms_cur ms) id = Some c ->
-  arg_kind_of c <> ARel ->
-  rel_arg_kind_m ms id = Some k ->
+Theorem enclosing_nonrelation_where_relation_rejected c ms id x f args named i k :
+  rel_enclosing c (ms_mods ms) (shadowed (ms_scope ms)) (ms_cur ms) id = Some x ->
+  arg_kind_of x <> ARel ->
+  rel_arg_kind_m c ms id = Some k ->
   nth_error (fs_params f) i = Some PRel -> nth_error args i = Some k ->
   length args = length (fs_params f) ->
   exists e, apply_fn f args named = AErr e.
@@ -457,10 +478,10 @@ Proof.
   eapply nonrelation_where_relation_rejected; eassumption.
 Qed.
 
-Corollary sibling_constant_where_relation_rejected ms m cur n f args named i k :
+Corollary sibling_constant_where_relation_rejected c ms m cur n f args named i k :
   ms_cur ms = m :: cur ->
   mlookup (ms_mods ms) (shadowed (ms_scope ms)) (m :: cur, n) = [CRoot NValue] ->
-  rel_arg_kind_m ms ([], n) = Some k ->
+  rel_arg_kind_m c ms ([], n) = Some k ->
   nth_error (fs_params f) i = Some PRel -> nth_error args i = Some k ->
   length args = length (fs_params f) ->
   exists e, apply_fn f args named = AErr e.
@@ -471,25 +492,85 @@ Proof.
 Qed.
 
 (* a sibling relation variable is found, and is a relation *)
-Theorem sibling_table_is_a_relation ms m cur n :
+Theorem sibling_table_is_a_relation c ms m cur n :
   ms_cur ms = m :: cur ->
   mlookup (ms_mods ms) (shadowed (ms_scope ms)) (m :: cur, n) = [CRoot NTable] ->
-  rel_arg_kind_m ms ([], n) = Some ARel.
+  rel_arg_kind_m c ms ([], n) = Some ARel.
 Proof.
   intros Hcur Hl. unfold rel_arg_kind_m. rewrite Hcur.
-  rewrite (rel_enclosing_sibling _ _ m cur [] n (CRoot NTable)); [reflexivity|]. rewrite app_nil_r. exact Hl.
+  rewrite (rel_enclosing_sibling c _ _ m cur [] n (CRoot NTable)); [reflexivity|]. rewrite app_nil_r. exact Hl.
 Qed.
 
 (* outside modules nothing changed *)
-Theorem rel_arg_kind_m_at_root ms id : ms_cur ms = [] -> rel_arg_kind_m ms id = rel_arg_kind_m_before_d92afac ms id.
-Proof. intro H. unfold rel_arg_kind_m, rel_arg_kind_m_before_d92afac. rewrite H. reflexivity. Qed.
+Theorem rel_arg_kind_m_at_root c ms id : ms_cur ms = [] -> rel_arg_kind_m c ms id = rel_arg_kind_m_before_d92afac ms id.
+Proof.
+  intro H. unfold rel_arg_kind_m, rel_arg_kind_m_before_d92afac, rel_enclosing, walk, inits_ne. rewrite H.
+  destruct (cfg_parent_walk c); reflexivity.
+Qed.
 
 (* value positions: the first attempt that resolves wins, the declaration's own module first *)
-Theorem sibling_shadows_in_value_position ms m cur id r :
+Theorem sibling_shadows_in_value_position c ms m cur id r :
   ms_cur ms = m :: cur ->
   resolve_core_m (ms_mods ms) (ms_scope ms) ((m :: cur) ++ fst id, snd id) = r ->
-  (forall e, r <> RErr e) -> resolve_m ms id = r.
+  (forall e, r <> RErr e) -> resolve_m c ms id = r.
 Proof.
-  intros Hcur Hr Hne. unfold resolve_m. rewrite Hcur. cbn [resolve_enclosing]. rewrite Hr.
+  intros Hcur Hr Hne. unfold resolve_m, resolve_enclosing. rewrite Hcur.
+  destruct (walk_head c m cur) as [rest ->]. cbn [first_resolved]. rewrite Hr.
   destruct r; try reflexivity. exfalso. eapply Hne. reflexivity.
+Qed.
+
+(* ---- the walk to the PARENT module (reference/spec/modules.md; the C10-F3 repair) ---- *)
+
+(* with the prefix walk every enclosing module is visited, innermost first: a declaration of an ancestor is found
+   unless something closer is *)
+Lemma inits_ne_app pre x suf : In (pre ++ [x]) (inits_ne (pre ++ x :: suf)).
+Proof.
+  unfold inits_ne. apply in_map_iff. exists (rev (pre ++ [x])). split; [apply rev_involutive|].
+  rewrite rev_app_distr. cbn [rev app]. replace (pre ++ x :: suf) with ((pre ++ [x]) ++ suf) by (rewrite <- app_assoc; reflexivity).
+  rewrite rev_app_distr, rev_app_distr. cbn [rev app].
+  induction (rev suf) as [|y l IH]; [left; reflexivity | right; exact IH].
+Qed.
+
+Theorem parent_walk_visits_every_ancestor c pre x suf :
+  cfg_parent_walk c = true -> In (pre ++ [x]) (walk c (pre ++ x :: suf)).
+Proof. intro H. unfold walk. rewrite H. apply inits_ne_app. Qed.
+
+(* depth 2, the case of finding C10-F3: nothing of that name in m.n, one declaration in m *)
+Theorem parent_declaration_found c mods sc m n id x :
+  cfg_parent_walk c = true ->
+  (forall y, mlookup mods sc ([m; n] ++ fst id, snd id) <> [y]) ->
+  mlookup mods sc ([m] ++ fst id, snd id) = [x] ->
+  rel_enclosing c mods sc [m; n] id = Some x.
+Proof.
+  intros H Hn Hp. unfold rel_enclosing, walk, inits_ne. rewrite H. cbn [rev app tails_ne map first_unique] in *.
+  destruct (mlookup mods sc (m :: n :: fst id, snd id)) as [|y [|z l]] eqn:E.
+  - rewrite Hp. reflexivity.
+  - exfalso. apply (Hn y). reflexivity.
+  - rewrite Hp. reflexivity.
+Qed.
+
+Corollary parent_constant_where_relation_rejected c ms m n name f args named i k :
+  cfg_parent_walk c = true -> ms_cur ms = [m; n] ->
+  (forall y, mlookup (ms_mods ms) (shadowed (ms_scope ms)) ([m; n], name) <> [y]) ->
+  mlookup (ms_mods ms) (shadowed (ms_scope ms)) ([m], name) = [CRoot NValue] ->
+  rel_arg_kind_m c ms ([], name) = Some k ->
+  nth_error (fs_params f) i = Some PRel -> nth_error args i = Some k ->
+  length args = length (fs_params f) ->
+  exists e, apply_fn f args named = AErr e.
+Proof.
+  intros H Hcur Hn Hp. eapply enclosing_nonrelation_where_relation_rejected.
+  - rewrite Hcur. apply (parent_declaration_found c _ _ m n ([], name) (CRoot NValue)); [exact H | |]; cbn [fst snd app]; assumption.
+  - discriminate.
+Qed.
+
+(* the pop_front walk visits [n] instead of [m]: with nothing called n at the root the parent's declaration is missed *)
+Theorem pop_front_walk_misses_parent c mods sc m n id :
+  cfg_parent_walk c = false ->
+  (forall y, mlookup mods sc ([m; n] ++ fst id, snd id) <> [y]) ->
+  (forall y, mlookup mods sc ([n] ++ fst id, snd id) <> [y]) ->
+  rel_enclosing c mods sc [m; n] id = None.
+Proof.
+  intros H H1 H2. unfold rel_enclosing, walk. rewrite H. cbn [tails_ne first_unique app] in *.
+  destruct (mlookup mods sc (m :: n :: fst id, snd id)) as [|y [|z l]] eqn:E1; try (exfalso; apply (H1 y); reflexivity);
+    destruct (mlookup mods sc (n :: fst id, snd id)) as [|y' [|z' l']] eqn:E2; try (exfalso; apply (H2 y'); reflexivity); reflexivity.
 Qed.
